@@ -18,7 +18,7 @@ def run(tier, seed):
     try:
         mc = xc.mc_bv(wd, tier, deep=True)
         q = tier == "quick"
-        res = xc.judge(rep, "data", 16 if q else 300, seed, wd, "d", OWNS, jobs=8 if q else 14)
+        res = xc.judge(rep, "data", 16 if q else 1000, seed, wd, "d", OWNS, jobs=8 if q else 14)
         rep.cov["samples"] = [{"family": "data", "forms": len({d[0] for d in res.distinct}), "example": sorted(res.distinct)[:3]}]
         t8 = xc.table8(rep, wd, True, False, workers=8 if q else 14)
         rep.cov["exhaustive_8bit"] = {"spec_rows_from_tlc": t8["rows"], "form_variants": t8["variants"], "cases": t8["cases"],
